@@ -217,10 +217,12 @@ def r12_3_bounds_copied(ctx: Ctx):
     # bounds arrays of the problem are copied by the evolvent
     ev = ctx.ix.cls('Evolvent')
     eo = [o for o in pta._objs.values() if o.cls is ev and o.kind in ('inst', 'ext_inst')]
+    from . import evo
+    e_ = evo.evo_of(ctx)
     for fld in ('lowerBoundOfFloatVariables', 'upperBoundOfFloatVariables'):
         objs = set()
         for o in eo:
-            objs |= pta.read_field(o, fld)
+            objs |= pta.read_field(o, e_.backing_field(fld))
         data = [o for o in objs if o.kind in DATA_KINDS]
         bad = [o for o in data if not (o.scope == 'func' and o.kind == 'ndarray')]
         ctx.check(bool(data) and not bad, rid, f'Evolvent.{fld}', ev.lookup('__init__').loc(),
